@@ -80,7 +80,12 @@ func expectOK(out *kit.Outcome, prop string, tr *Trace, tag string, payload kit.
 		out.Violate(prop+"/no-outcome", "invocation %s has no outcome", tag)
 		return false
 	}
-	id := invokedID(tr, tag)
+	// the id of the dispatch inside this caller's window (authoritative); the runtime's own view as fall-back - a process
+	// killed just before may still record the last answer it got, late, inside this window
+	id := platformRequestID(tr, tag)
+	if id == "" {
+		id = invokedID(tr, tag)
+	}
 	want := kit.Summarise(transform(id, trunc(payload.Bytes())))
 	if strings.HasPrefix(ret.Text, "Task timed out") && tr.TimeoutMs > 0 && tr.MaxLagMs > float64(tr.TimeoutMs)/4 {
 		// the whole host process was starved of CPU (loaded machine): a timeout of a healthy invocation says nothing
